@@ -482,11 +482,15 @@ Definition waiter_ok (s : state) : Prop :=
   (exists c, has is_waiting (calls s) c) ->
   (maxc s <= Z.of_nat (open_out s))%Z \/ exists c, has closed_opened (calls s) c.
 
+(* nothing is held back in the client's h2 buffer unless writing is paused *)
+Definition held_ok (s : state) : Prop := cpaused s = false -> count k_held (calls s) = 0.
+
 Record Inv (s : state) : Prop := {
   i_calls : all_pc (calls s);
   i_creg : creg_ok s;
   i_sreg : sreg_ok s;
-  i_wait : waiter_ok s
+  i_wait : waiter_ok s;
+  i_held : held_ok s
 }.
 
 Lemma all_pc_upd l c f :
@@ -677,7 +681,7 @@ Proof.
       * intros X. apply B5. apply (f15 k P X).
   - (* SSettings *) exact A.
   - exact A.
-  - exact A.
+  - apply all_pc_map; [apply PC_flush1|exact A].
   - apply all_pc_map; [apply PC_flush1|exact A].
 Qed.
 
@@ -765,7 +769,7 @@ Proof.
       intros d; rewrite (has_upd_eq is_opened _ c _ k d E); auto.
   - split; assumption.
   - split; assumption.
-  - split; assumption.
+  - simpl. split; auto. intros d. rewrite has_map; [apply R|]. intros k0. unfold is_opened. rewrite flush1_cph. reflexivity.
   - simpl. split; auto. intros d. rewrite has_map; [apply R|]. intros k0. unfold is_opened. rewrite flush1_cph. reflexivity.
 Qed.
 
@@ -832,7 +836,7 @@ Proof.
        | rewrite has_upd_other by assumption; rewrite R; intuition congruence ]).
   - split; assumption.
   - split; assumption.
-  - split; assumption.
+  - simpl. split; auto. intros d. rewrite has_map; [apply R|]. intros k0. unfold is_running. rewrite flush1_sph. reflexivity.
   - simpl. split; auto. intros d. rewrite has_map; [apply R|]. intros k0. unfold is_running. rewrite flush1_sph. reflexivity.
 Qed.
 
@@ -1010,7 +1014,7 @@ Proof.
     [|destruct (srv_trailers _ _) as [h fs]]; simpl; apply waiter_upd_server with k; auto; try apply (A _ _ E).
   - exact W.
   - exact W.
-  - exact W.
+  - simpl. apply waiter_map; auto using flush1_cph, flush1_ch.
   - simpl. apply waiter_map; auto using flush1_cph, flush1_ch.
 Qed.
 
@@ -1019,6 +1023,68 @@ Qed.
 
 Lemma nth_repeat {A} (x : A) n c k : nth_error (repeat x n) c = Some k -> k = x.
 Proof. revert c; induction n; intros [|c]; simpl; intros H; try discriminate; [inversion H; auto|eauto]. Qed.
+
+Lemma count_upd_eq {A} (p : A -> bool) l c f k :
+  nth_error l c = Some k -> p (f k) = p k -> count p (upd c f l) = count p l.
+Proof. intros E H. pose proof (count_upd p f l c k E) as C. rewrite H in C. lia. Qed.
+
+Lemma wake_held k : k_held (wake k) = k_held k.
+Proof. unfold wake. destruct k as [[] ? ? ? ? ? ? ? ?]; reflexivity. Qed.
+
+Lemma flush1_not_held k : k_held (flush1 k) = false.
+Proof. unfold flush1. destruct (k_held k) eqn:E; cbn; auto. Qed.
+
+Lemma step_held s o : held_ok s -> held_ok (fst (step s o)).
+Proof.
+  intros H. unfold held_ok in *.
+  assert (FL : count k_held (map flush1 (calls s)) = 0).
+  { apply count_zero. intros c k E. rewrite nth_map in E.
+    destruct (nth_error (calls s) c); simpl in E; inversion E. apply flush1_not_held. }
+  destruct o as [c es|c|c|c|c|c| |c nonok|c|c x|n| | | ]; simpl.
+  - destruct (nth_error (calls s) c) as [k|] eqn:E; [|exact H].
+    destruct (k_cph k); try exact H;
+      (destruct (Z.of_nat (open_out s) <? maxc s)%Z; simpl; intros P;
+       rewrite (count_upd_eq _ _ _ _ k E); auto).
+  - destruct (nth_error (calls s) c) as [k|] eqn:E; [|exact H].
+    destruct (k_cph k); try exact H.
+    destruct (h2_open (k_ch k) && negb (h_se (k_ch k))); [|exact H]. simpl; intros P.
+    rewrite (count_upd_eq _ _ _ _ k E); auto.
+  - destruct (nth_error (calls s) c) as [k|] eqn:E; [|exact H].
+    destruct (k_cph k); try exact H.
+    destruct (h2_open (k_ch k)); [|exact H]. simpl; intros P.
+    rewrite (count_upd_eq _ _ _ _ k E); auto.
+  - destruct (nth_error (calls s) c) as [k|] eqn:E; [|exact H].
+    destruct (k_cph k); try exact H; simpl; intros P.
+    1-3: rewrite (count_upd_eq _ _ _ _ k E); auto.
+    rewrite (count_map_same _ _ _ wake_held). rewrite (count_upd_eq _ _ _ _ k E); auto.
+    cbn. rewrite P. rewrite andb_false_r. apply orb_false_r.
+  - destruct (nth_error (calls s) c) as [k|] eqn:E; [|exact H].
+    destruct (k_qc k) as [|f r] eqn:Q; [exact H|].
+    destruct (srv_recv f k) as [k' reg] eqn:SR. simpl. intros P.
+    rewrite (count_upd_eq _ _ _ _ k E); auto.
+    unfold srv_recv in SR. destruct f; [destruct (h_op (k_sh k))| |]; inversion SR; reflexivity.
+  - destruct (nth_error (calls s) c) as [k|] eqn:E; [|exact H].
+    destruct (k_qs k) as [|f r] eqn:Q; [exact H|]. simpl. intros P.
+    rewrite (count_upd_eq _ _ _ _ k E); auto.
+  - destruct (sq s); [exact H|]. simpl. intros P. rewrite (count_map_same _ _ _ wake_held). auto.
+  - destruct (nth_error (calls s) c) as [k|] eqn:E; [|exact H].
+    destruct (k_sph k); try exact H.
+    destruct (k_trail k); [exact H|]. destruct (negb (h2_open (k_sh k))); [exact H|].
+    destruct (srv_trailers nonok (k_sh k)) as [h fs]. simpl. intros P.
+    rewrite (count_upd_eq _ _ _ _ k E); auto.
+  - destruct (nth_error (calls s) c) as [k|] eqn:E; [|exact H].
+    destruct (k_sph k); try exact H.
+    destruct (k_cancel k); [exact H|]. destruct (negb (h2_open (k_sh k))); [exact H|]. simpl. intros P.
+    rewrite (count_upd_eq _ _ _ _ k E); auto.
+  - destruct (nth_error (calls s) c) as [k|] eqn:E; [|exact H].
+    destruct (k_sph k); try exact H.
+    match goal with |- context[if ?b then _ else _] => destruct b end;
+    [|destruct (srv_trailers _ _) as [h fs]]; simpl; intros P; rewrite (count_upd_eq _ _ _ _ k E); auto.
+  - exact H.
+  - intros P; discriminate.
+  - intros _. exact FL.
+  - intros _. exact FL.
+Qed.
 
 Lemma Inv_init n m : Inv (init n m).
 Proof.
@@ -1029,15 +1095,17 @@ Proof.
   - split; [constructor|]. intros c. split; [intros []|].
     intros (k & E & P). apply nth_repeat in E. subst; discriminate.
   - intros (c & k & E & P). apply nth_repeat in E. subst; discriminate.
+  - intros _. apply count_zero. intros c k E. apply nth_repeat in E. subst; reflexivity.
 Qed.
 
 Lemma Inv_step s o : Inv s -> Inv (fst (step s o)).
 Proof.
-  intros [A B C D]. constructor.
+  intros [A B C D F]. constructor.
   - apply step_all_pc; assumption.
   - apply step_creg; assumption.
   - apply step_sreg; assumption.
   - apply step_wait; assumption.
+  - apply step_held; assumption.
 Qed.
 
 Lemma Inv_run ops s : Inv s -> Inv (run ops s).
@@ -1059,7 +1127,7 @@ Lemma tracked_invariant n m ops :
   (NoDup (creg s) /\ forall c, In c (creg s) <-> has is_opened (calls s) c) /\
   (NoDup (sreg s) /\ forall c, In c (sreg s) <-> has is_running (calls s) c).
 Proof.
-  intros s. destruct (Inv_run ops (init n m) (Inv_init n m)) as [_ B C _]. split; assumption.
+  intros s. destruct (Inv_run ops (init n m) (Inv_init n m)) as [_ B C _ _]. split; assumption.
 Qed.
 
 (* (2) nothing is left behind *)
@@ -1075,7 +1143,7 @@ Lemma client_side_clean n m ops :
   let s := run ops (init n m) in
   all_calls is_cexited s -> creg s = [] /\ open_out s = 0.
 Proof.
-  intros s X. destruct (Inv_run ops (init n m) (Inv_init n m)) as [A [_ B] _ _]. fold s in A, B. split.
+  intros s X. destruct (Inv_run ops (init n m) (Inv_init n m)) as [A [_ B] _ _ _]. fold s in A, B. split.
   - apply nil_of_no_member. intros c I. apply B in I. destruct I as (k & E & P).
     specialize (X _ _ E). unfold is_cexited, is_opened in *. destruct (k_cph k); discriminate.
   - apply count_zero. intros c k E. apply (f1c k (A _ _ E)).
@@ -1113,65 +1181,68 @@ Proof.
   - destruct (f2 k H CO) as [_ SO]. apply op_false_not_open; assumption.
 Qed.
 
+Lemma not_paused_not_held s c k :
+  Inv s -> cpaused s = false -> nth_error (calls s) c = Some k -> k_held k = false.
+Proof.
+  intros I P E. pose proof (i_held s I P) as Z. rewrite count_zero in Z. apply (Z _ _ E).
+Qed.
+
+(* per call, whatever the handler does: the client has left the context, writing is possible and the
+   client's frames have arrived => the stream counts on neither side (with the repaired D45: whatever
+   reset_nowait could not write while paused is written by resume_writing) *)
+Lemma client_exit_reaches_server n m ops c k :
+  let s := run ops (init n m) in
+  nth_error (calls s) c = Some k -> k_cph k = CExited -> k_qc k = [] -> cpaused s = false ->
+  h2_open (k_ch k) = false /\ h2_open (k_sh k) = false.
+Proof.
+  intros s E X Q NP. pose proof (Inv_run ops (init n m) (Inv_init n m)) as I. fold s in I.
+  pose proof (i_calls s I _ _ E) as P.
+  pose proof (f1c k P X) as NO. split; auto.
+  apply client_closed_closes_server; auto. apply (not_paused_not_held s c k I NP E).
+Qed.
+
 (* both sides: after any history in which all calls have exited (client contexts left, handlers ended),
-   everything the client's h2 had to send has been written and the client's frames have arrived.
-   FULL STATEMENT (false, see no_open_streams_refuted): the same with "writing is not paused" in place
-   of "no RST_STREAM is held back in the client's h2 buffer". *)
-Lemma no_open_streams_partial n m ops :
+   writing is not paused and the client's frames have arrived *)
+Lemma no_open_streams n m ops :
   let s := run ops (init n m) in
   all_calls is_cexited s -> all_calls (fun k => negb (is_running k)) s ->
   all_calls (fun k => match k_qc k with [] => true | _ => false end) s ->
-  all_calls (fun k => negb (k_held k)) s ->
+  cpaused s = false ->
   creg s = [] /\ sreg s = [] /\ open_out s = 0 /\ open_in s = 0.
 Proof.
-  intros s X Y Z HD. destruct (client_side_clean n m ops X) as [C1 C2]. fold s in C1, C2.
-  destruct (Inv_run ops (init n m) (Inv_init n m)) as [A _ [_ B] _]. fold s in A, B.
+  intros s X Y Z NP. destruct (client_side_clean n m ops X) as [C1 C2]. fold s in C1, C2.
+  pose proof (Inv_run ops (init n m) (Inv_init n m)) as I. fold s in I.
+  pose proof (i_sreg s I) as [_ B].
   repeat split; auto.
-  - apply nil_of_no_member. intros c I. apply B in I. destruct I as (k & E & P).
+  - apply nil_of_no_member. intros c I0. apply B in I0. destruct I0 as (k & E & P).
     specialize (Y _ _ E). cbn in Y. rewrite P in Y. discriminate.
-  - apply count_zero. intros c k E. apply client_closed_closes_server; [apply (A _ _ E)| | |].
+  - apply count_zero. intros c k E.
+    apply (client_exit_reaches_server n m ops c k E); auto.
+    + specialize (X _ _ E). unfold is_cexited in X. destruct (k_cph k); auto; discriminate.
     + specialize (Z _ _ E). cbn in Z. destruct (k_qc k); auto; discriminate.
-    + specialize (HD _ _ E). cbn in HD. destruct (k_held k); auto; discriminate.
-    + apply (f1c k (A _ _ E)). specialize (X _ _ E). unfold is_cexited in X.
-      destruct (k_cph k); auto; discriminate.
 Qed.
 
-(* per call: once the client has left the context, its h2 has written everything and the frames have
-   arrived, the stream no longer counts at the server (whatever the handler does) *)
-Lemma client_exit_reaches_server_partial n m ops c k :
-  let s := run ops (init n m) in
-  nth_error (calls s) c = Some k -> k_cph k = CExited -> k_qc k = [] -> k_held k = false ->
-  h2_open (k_ch k) = false /\ h2_open (k_sh k) = false.
-Proof.
-  intros s E X Q HD. destruct (Inv_run ops (init n m) (Inv_init n m)) as [A _ _ _]. fold s in A.
-  pose proof (f1c k (A _ _ E) X) as NO. split; auto.
-  apply client_closed_closes_server; auto. apply (A _ _ E).
-Qed.
-
-(* FULL STATEMENT of the above without `k_held k = false` but with "writing is not paused": false.
-   A call leaves its context (application exception, cancel of the task, deadline, early return)
-   while writing is paused; writing resumes; the handler is waiting for the client: the state is
-   quiescent and writable, the client is done with the call (nothing tracked, stream closed in its h2)
-   -- and the server still tracks the call, its stream still counts, the handler keeps running, because
-   the RST_STREAM is still in the client's h2 buffer and resume_writing writes nothing *)
-Definition held_witness_running : list op := [COpenTry 0 false; DeliverC2S 0; CPause; CExit 0; CResume].
-
-Lemma client_exit_reaches_server_refuted :
-  exists n m ops c k, let s := run ops (init n m) in
-    nth_error (calls s) c = Some k /\ k_cph k = CExited /\ k_qc k = [] /\
-    cpaused s = false /\ quiescent s = true /\
-    creg s = [] /\ open_out s = 0 /\ sreg s = [c] /\ open_in s = 1 /\ h2_open (k_sh k) = true.
-Proof.
-  exists 1, 100%Z, held_witness_running, 0. eexists. cbn. repeat split; reflexivity.
-Qed.
-
-(* the held frame leaves with the next write of any kind *)
+(* while writing is paused the RST_STREAM of a context exit is held back; any write releases it, and
+   resume_writing does so at the latest *)
 Lemma flush_releases_held s :
-  all_calls (fun k => negb (k_held k)) (fst (step s CFlush)).
+  all_calls (fun k => negb (k_held k)) (fst (step s CFlush)) /\
+  (all_calls (fun k => negb (k_held k)) (fst (step s CResume)) /\ cpaused (fst (step s CResume)) = false).
 Proof.
-  intros c k E. simpl in E. rewrite nth_map in E. destruct (nth_error (calls s) c) as [k0|]; simpl in E; inversion E.
-  unfold flush1. destruct (k_held k0) eqn:HD; cbn; [reflexivity|rewrite HD; reflexivity].
+  assert (F : all_calls (fun k => negb (k_held k)) (with_calls s (map flush1 (calls s)))).
+  { intros c k E. simpl in E. rewrite nth_map in E.
+    destruct (nth_error (calls s) c) as [k0|]; simpl in E; inversion E.
+    unfold flush1. destruct (k_held k0) eqn:HD; cbn; [reflexivity|rewrite HD; reflexivity]. }
+  split; [exact F|split; [exact F|reflexivity]].
 Qed.
+
+Definition held_example : list op := [COpenTry 0 false; DeliverC2S 0; CPause; CExit 0].
+
+Lemma exit_while_paused_is_held_then_released :
+  let s := run held_example (init 1 100%Z) in
+  creg s = [] /\ open_out s = 0 /\ open_in s = 1 /\ idx_where k_held (calls s) = [0] /\
+  let s' := run [CResume; DeliverC2S 0] s in
+  idx_where k_held (calls s') = [] /\ open_in s' = 0.
+Proof. cbn. repeat split; reflexivity. Qed.
 
 (* the server side alone, against any client that has closed its half of every stream.
    FULL STATEMENT (false, see no_open_streams_server_refuted):
@@ -1207,7 +1278,7 @@ Lemma no_open_streams_server_partial n m ops :
   sreg s = [] /\ open_in s = 0.
 Proof.
   intros s Y L Z HC.
-  destruct (Inv_run ops (init n m) (Inv_init n m)) as [A _ [_ B] _]. fold s in A, B.
+  destruct (Inv_run ops (init n m) (Inv_init n m)) as [A _ [_ B] _ _]. fold s in A, B.
   split.
   - apply nil_of_no_member. intros c I. apply B in I. destruct I as (k & E & P).
     specialize (Y _ _ E). cbn in Y. rewrite P in Y. discriminate.
@@ -1283,7 +1354,7 @@ Lemma no_lost_wakeup n m ops c :
   let s := run ops (init n m) in
   quiescent s = true -> has is_waiting (calls s) c -> (maxc s <= Z.of_nat (open_out s))%Z.
 Proof.
-  intros s Q W. destruct (Inv_run ops (init n m) (Inv_init n m)) as [_ _ _ WK]. fold s in WK.
+  intros s Q W. destruct (Inv_run ops (init n m) (Inv_init n m)) as [_ _ _ WK _]. fold s in WK.
   destruct WK as [WK|[d (k & E & P)]]; [exists c; assumption|assumption|].
   exfalso. unfold quiescent in Q. destruct (sq s); [|discriminate].
   pose proof (forallb_nth _ _ _ _ Q E) as X. cbn in X.
@@ -1373,7 +1444,8 @@ Proof.
     [|destruct (srv_trailers _ _) as [h fs]]; simpl; apply U; intros ->; exact P.
   - exact H0.
   - exact H0.
-  - exact H0.
+  - simpl. unfold has. rewrite nth_map, E. simpl. eexists; split; eauto.
+    unfold is_woken. rewrite flush1_cph. exact P.
   - simpl. unfold has. rewrite nth_map, E. simpl. eexists; split; eauto.
     unfold is_woken. rewrite flush1_cph. exact P.
 Qed.
@@ -1579,7 +1651,7 @@ Proof.
         assert (H : has is_nw (calls s1) d) by (exists k; split; auto; unfold is_nw; rewrite Ph; reflexivity).
         destruct (retry_nw _ _ _ H) as [H1 H2]. apply H2. apply FO. assumption.
       + (* Waiting: the invariant gives an opened call *)
-        destruct I1 as [A _ _ W].
+        destruct I1 as [A _ _ W _].
         destruct W as [W|[d' (k' & E' & P')]].
         * exists d, k. split; auto. unfold is_waiting. rewrite Ph. reflexivity.
         * assert (open_out s1 <= opened_count s1).
